@@ -14,6 +14,7 @@ import (
 	"fmt"
 	"os"
 	"strings"
+	"syscall"
 
 	"wmverif/wh"
 )
@@ -52,6 +53,7 @@ func fixedScenarios(rng *wh.Rng, thorough bool) []Scenario {
 		for _, c := range []ReqSpec{
 			{Caller: "early", End: "cancel", Outcomes: []string{"slow"}}, {Caller: "early", End: "parent", Outcomes: []string{"slow"}, ReadAfter: true},
 			{Caller: "early", End: "cancel", Outcomes: []string{"err", "slow"}, ReadAfter: true}, {Caller: "replyearly", End: "parent", Outcomes: []string{"slow"}},
+			{Caller: "sendfail", End: "cancel", Outcomes: []string{"ok"}},
 		} {
 			out = append(out, single(ack, !flip, rng.Next(), c))
 		}
@@ -77,6 +79,14 @@ func fixedScenarios(rng *wh.Rng, thorough bool) []Scenario {
 				out = append(out, sc2)
 			}
 		}
+	}
+	// the reply Pub/Sub is closed while the contexts are alive ("subscriber closed" path, also with a full reply channel)
+	for _, ack := range []bool{false, true} {
+		out = append(out, Scenario{AckErrs: ack, Shared: ack, CloseSub: true, Seed: rng.Next(), Reqs: []ReqSpec{
+			{Caller: "drain", End: "cancel", Outcomes: []string{"err", "ok"}}, {Caller: "never", End: "cancel", Outcomes: []string{"bad"}},
+			{Caller: "never", End: "parent", Outcomes: []string{"err", "err", "ok"}}, {Caller: "one", End: "cancel", Outcomes: []string{"ok"}},
+			{Caller: "one", End: "cancel", Outcomes: []string{"err", "err", "ok"}}, {Caller: "early", End: "cancel", Outcomes: []string{"slow"}},
+		}})
 	}
 	// timeouts
 	for _, ack := range []bool{false, true} {
@@ -132,12 +142,12 @@ func randomScenario(rng *wh.Rng, n int, ack, shared *bool) Scenario {
 	}
 	for i := 0; i < n; i++ {
 		q := ReqSpec{}
-		q.Caller = []string{"drain", "drain", "one", "never", "never", "early", "reply", "replyearly"}[rng.Intn(8)]
+		q.Caller = []string{"drain", "drain", "drain", "one", "one", "never", "never", "never", "early", "early", "reply", "replyearly", "sendfail"}[rng.Intn(13)]
 		q.End = []string{"cancel", "cancel", "parent"}[rng.Intn(3)]
 		if small && rng.Intn(3) > 0 && q.Caller != "early" {
 			q.End = "timeout"
 		}
-		if q.Caller == "reply" || q.Caller == "replyearly" {
+		if q.Caller == "reply" || q.Caller == "replyearly" || q.Caller == "sendfail" {
 			q.End = "cancel"
 		}
 		k := 1 + rng.Intn(3)
@@ -155,6 +165,7 @@ func randomScenario(rng *wh.Rng, n int, ack, shared *bool) Scenario {
 		q.ReadAfter = q.Caller == "early" && rng.Bool()
 		sc.Reqs = append(sc.Reqs, q)
 	}
+	sc.CloseSub = rng.Intn(8) == 0 && !small
 	sc.Normalise()
 	if rng.Intn(3) == 0 {
 		sc.Foreign = 1 + rng.Intn(4)
@@ -226,8 +237,28 @@ func cmdCases(rng *wh.Rng, extra int) []cmdCase {
 	return out
 }
 
+// withRaceExitSleep sets GORACE's atexit_sleep_ms (default 1000: a race-instrumented process sleeps a second at exit,
+// which would make every replayed corpus line cost a second for nothing).
+func withRaceExitSleep(env []string, ms string) []string {
+	out := make([]string, 0, len(env)+1)
+	cur := ""
+	for _, e := range env {
+		if strings.HasPrefix(e, "GORACE=") {
+			cur = e[len("GORACE="):]
+			continue
+		}
+		out = append(out, e)
+	}
+	return append(out, strings.TrimSpace("GORACE="+cur+" atexit_sleep_ms="+ms))
+}
+
 func main() {
 	a := wh.ParseArgs()
+	if a.Replay != "" && !strings.Contains(os.Getenv("GORACE"), "atexit_sleep_ms=") {
+		if exe, err := os.Executable(); err == nil {
+			syscall.Exec(exe, os.Args, withRaceExitSleep(os.Environ(), "50")) // returns only on failure
+		}
+	}
 	out := wh.NewOut(a.Out)
 	defer out.Close()
 	if a.Replay != "" {
@@ -254,9 +285,9 @@ func main() {
 		return
 	}
 	rng := wh.NewRng(a.Seed)
-	extra, nrand := 200, 60
+	extra, nrand := 200, 250
 	if a.Thorough() {
-		extra, nrand = 5000, 1500
+		extra, nrand = 5000, 4000
 	}
 	for _, c := range cmdCases(rng, extra) {
 		out.Case(c.Req(), runCmdCase(c))
